@@ -495,6 +495,11 @@ def enc_ack_with_fields(ranges, delay):
     return R.Enc(e, fields)
 
 
+import inspect as _inspect  # noqa: E402
+
+_ACK_HAS_MAX_RANGES = "max_ranges" in _inspect.signature(P.push_ack_frame).parameters
+
+
 def work_ack(item):
     acc = Acc()
     masks, bases, delays, arb_delays = item
@@ -521,6 +526,25 @@ def work_ack(item):
                            rp, len(ranges))
                 if n != len(ranges):
                     differ(acc, "roundtrip", ACK.push_name, "push_ack_frame returned %r for %d ranges" % (n, len(ranges)), rp)
+                # max_ranges=k: only the k ranges with the highest packet numbers are written; the frame
+                # must be exactly what the reference writes for that smaller set
+                if _ACK_HAS_MAX_RANGES and delay == delays[0]:
+                    for k in range(1, len(ranges) + 2):
+                        kept = ranges[-k:]
+                        ref_k = enc_ack_with_fields(kept, delay)
+                        buf = Buffer(capacity=256)
+                        n = _try(P.push_ack_frame, buf, RangeSet([range(a, b) for a, b in ranges]), delay, k)
+                        acc.cases[ACK.push_name] += 1
+                        rpk = dict(rp, max_ranges=k)
+                        if isinstance(n, str):
+                            differ(acc, "undocumented_exception", ACK.push_name,
+                                   "push_ack_frame(%r, delay=%d, max_ranges=%d) raised %s" % (ranges, delay, k, n),
+                                   rpk, len(ranges), exc=n.split(":")[0])
+                        elif buf.data != ref_k or n != len(kept):
+                            differ(acc, "encoder_differs_from_reference", ACK.push_name,
+                                   "push_ack_frame(%r, delay=%d, max_ranges=%d) = %s (returned %r), reference for the "
+                                   "%d highest ranges %s" % (ranges, delay, k, buf.data.hex(), n, len(kept), bytes(ref_k).hex()),
+                                   rpk, len(ranges))
                 for src, data in (("own", got), ("reference", bytes(ref))):
                     b = Buffer(data=data + b"\x5a")
                     back = _try(ACK.pull, b)
